@@ -165,6 +165,7 @@ FRAMES = {
     'pyth3': ((1, 2, 2), (2, 1, -2), (2, -2, 1)),
     'pyth7': ((2, 3, 6), (3, -6, 2), (6, 2, -3)),
     'shear': ((1, 0, 0), (1, 1, 0), (1, 1, 1)),
+    'yz45': ((1, 0, 0), (0, 1, 1), (0, -1, 1)),      # third axis (0,-1,1): planes with a zero x and opposite-sign y, z normal
 }
 
 
@@ -210,7 +211,7 @@ UNIT_POLYS = {
 }
 
 # scales keep coordinates on the quarter lattice and within |x| <= ~8
-FRAME_SCALE = {'axis': F(1), 'planar': F(1, 2), 'oblique': F(1, 2), 'pyth3': F(1, 4), 'pyth7': F(1, 4), 'shear': F(1, 2)}
+FRAME_SCALE = {'axis': F(1), 'planar': F(1, 2), 'oblique': F(1, 2), 'pyth3': F(1, 4), 'pyth7': F(1, 4), 'shear': F(1, 2), 'yz45': F(1, 2)}
 
 
 def body(shape, frame='axis', origin=(0, 0, 0), perm=None, scale=None):
